@@ -1,17 +1,224 @@
 import Tbx.Model.AHeap
 import Tbx.Spec.PQ
 import Tbx.Proofs.AHeapOrder
+import Tbx.Proofs.AHeapInvRun
 /-
 C10 — the addressable heap behaves as a min-priority queue with decrease-key.
 
 Property theorems only (helper lemmas live in Tbx/Proofs).  Registered in Tbx/Audit/C10.lean.
+
+Vocabulary (defined in Tbx/Proofs/AHeapInvDefs.lean and Tbx/Proofs/AHeapInvRun.lean):
+  `Inv s`      representation invariant of the model state (sentinel, weights ≥ min_value, heap
+               order, back pointers, forward pointers / `key = 0` iff removed, id-map contract)
+  `abs s`      the reference queue `Tbx.PQ.Q` the state stands for (nodes in insertion order,
+               `live` iff `key ≠ 0`)
+  `Op`, `step` one operation of the model (`none` = the Rust panics), `run` a history
+  `Pre`        the precondition of an operation, read in the reference state
+  `SpecStep`/`SpecRun`  the reference queue's (nondeterministic in `delete_min`) behaviours
+  `ValidFrom`  a history all of whose preconditions hold along the model's own run
+  `Valid`      the same, purely on the reference (for every choice of minimum)
 -/
 namespace Tbx.Props.C10
 open Tbx Tbx.AHeap
 
+/-! ### concrete instances used by the non-vacuity examples -/
+
+/-- insert (1,10),(2,20),(3,30) into a fresh heap (the D2 witness prefix) -/
+def ex3 : Heap := insert (insert (insert (init (-100) 100) 1 10 7) 2 20 8) 3 30 9
+
+/-- a history exercising every operation, including the D2 (decrease then extract) and D4
+(insert after flush) situations -/
+def exOps : List Op :=
+  [.ins 1 10 7, .ins 2 20 8, .ins 3 30 9, .dec 3 5, .del, .setd 1 4, .decd 2 6 1, .del,
+   .flush, .ins 4 1 1, .clear, .ins 5 2 2, .ins 6 2 3, .del]
+
+instance (wmin wmax : Int) (q : PQ.Q) (op : Op) : Decidable (Pre wmin wmax q op) := by
+  cases op <;> unfold Pre <;> infer_instance
+
+/-- executable version of `ValidFrom` -/
+def validFromB (s : Heap) : List Op → Bool
+  | [] => true
+  | op :: ops =>
+    decide (Pre s.wmin s.wmax (abs s) op) &&
+      (match step s op with
+       | none => true
+       | some (s', _) => validFromB s' ops)
+
+theorem validFromB_sound (ops : List Op) : ∀ s, validFromB s ops = true → ValidFrom s ops := by
+  induction ops with
+  | nil => intro _ _; trivial
+  | cons op ops ih =>
+    intro s h
+    simp only [validFromB, Bool.and_eq_true, decide_eq_true_eq] at h
+    refine ⟨h.1, ?_⟩
+    intro s' r hs
+    rw [hs] at h
+    exact ih s' h.2
+
+theorem exOps_valid : ValidFrom (init (-100) 100) exOps := validFromB_sound _ _ (by decide)
+
+/-! ### the judge -/
+
 /-- the executable minimum check used by the judge is exactly the Spec's `IsMin` -/
 theorem judge_isMin_sound (q : PQ.Q) (id : Int) : PQ.isMinB q id = true ↔ PQ.IsMin q id :=
   PQ.isMinB_iff q id
+
+/-! ### invariant -/
+
+/-- a fresh heap satisfies the invariant and stands for the empty queue -/
+theorem inv_init (wmin wmax : Int) : Inv (init wmin wmax) ∧ abs (init wmin wmax) = [] :=
+  ⟨init_inv wmin wmax, init_abs wmin wmax⟩
+
+/-- every in-domain operation preserves the invariant -/
+theorem inv_step (s : Heap) (I : Inv s) (op : Op) (hpre : Pre s.wmin s.wmax (abs s) op)
+    (s' : Heap) (r : Option Int) (h : step s op = some (s', r)) : Inv s' := by
+  obtain ⟨s1, r1, h1, I1, _⟩ := refines_step s I op hpre
+  rw [h] at h1; cases h1; exact I1
+
+theorem ex3_inv : Inv ex3 := by
+  have I0 := init_inv (-100) 100
+  have I1 := (insert_refines _ I0 1 10 7 (by decide) (by decide)).1
+  have I2 := (insert_refines _ I1 2 20 8 (by decide) (by decide)).1
+  exact (insert_refines _ I2 3 30 9 (by decide) (by decide)).1
+
+/-- non-vacuity of `inv_step`: a decrease that must sift to the root -/
+example : Inv ex3 ∧ Pre ex3.wmin ex3.wmax (abs ex3) (.dec 3 5) ∧ (step ex3 (.dec 3 5)).isSome = true :=
+  ⟨ex3_inv, by decide, by decide⟩
+
+/-! ### refinement, operation by operation -/
+
+/-- `insert` of a fresh id with a weight ≥ `min_value` -/
+theorem insert_refines (s : Heap) (I : Inv s) (id w d : Int)
+    (hfresh : PQ.inserted (abs s) id = false) (hw : s.wmin ≤ w) :
+    Inv (insert s id w d) ∧ abs (insert s id w d) = PQ.insert (abs s) id w d ∧
+    (insert s id w d).wmin = s.wmin ∧ (insert s id w d).wmax = s.wmax :=
+  AHeap.insert_refines s I id w d hfresh hw
+
+example : Inv ex3 ∧ PQ.inserted (abs ex3) 4 = false ∧ ex3.wmin ≤ 1 := ⟨ex3_inv, by decide, by decide⟩
+
+/-- `decrease_key` of a contained id to a weight in `[min_value, current weight]` -/
+theorem decreaseKey_refines (s : Heap) (I : Inv s) (id w : Int)
+    (hc : PQ.contains (abs s) id = true) (hw1 : s.wmin ≤ w) (hw2 : w ≤ PQ.weight (abs s) s.wmax id) :
+    ∃ s', decreaseKey s id w = some s' ∧ Inv s' ∧ abs s' = PQ.decreaseKey (abs s) id w ∧
+      s'.wmin = s.wmin ∧ s'.wmax = s.wmax :=
+  AHeap.decreaseKey_refines s I id w hc hw1 hw2
+
+example : Inv ex3 ∧ PQ.contains (abs ex3) 3 = true ∧ ex3.wmin ≤ 5 ∧ 5 ≤ PQ.weight (abs ex3) ex3.wmax 3 :=
+  ⟨ex3_inv, by decide, by decide, by decide⟩
+
+/-- `decrease_key_and_update_data` -/
+theorem decreaseKeyData_refines (s : Heap) (I : Inv s) (id w d : Int)
+    (hc : PQ.contains (abs s) id = true) (hw1 : s.wmin ≤ w) (hw2 : w ≤ PQ.weight (abs s) s.wmax id) :
+    ∃ s', decreaseKeyData s id w d = some s' ∧ Inv s' ∧
+      abs s' = PQ.setData (PQ.decreaseKey (abs s) id w) id d ∧
+      s'.wmin = s.wmin ∧ s'.wmax = s.wmax :=
+  AHeap.decreaseKeyData_refines s I id w d hc hw1 hw2
+
+example : Inv ex3 ∧ PQ.contains (abs ex3) 2 = true ∧ ex3.wmin ≤ 20 ∧ 20 ≤ PQ.weight (abs ex3) ex3.wmax 2 :=
+  ⟨ex3_inv, by decide, by decide, by decide⟩
+
+/-- `data_mut(id) = d` on an inserted (contained or removed) id -/
+theorem setData_refines (s : Heap) (I : Inv s) (id d : Int) (hi : PQ.inserted (abs s) id = true) :
+    ∃ s', setData s id d = some s' ∧ Inv s' ∧ abs s' = PQ.setData (abs s) id d ∧
+      s'.wmin = s.wmin ∧ s'.wmax = s.wmax :=
+  AHeap.setData_refines s I id d hi
+
+example : Inv ex3 ∧ PQ.inserted (abs ex3) 2 = true := ⟨ex3_inv, by decide⟩
+
+/-- `delete_min` on a non-empty queue: it returns a contained id of minimal weight (the one
+`min()` reports) and removes exactly that id -/
+theorem deleteMin_refines (s : Heap) (I : Inv s) (hne : PQ.len (abs s) ≠ 0) :
+    ∃ s' id, deleteMin s = some (s', id) ∧ Inv s' ∧ PQ.IsMin (abs s) id ∧
+      abs s' = PQ.remove (abs s) id ∧ min? s = some id ∧ s'.wmin = s.wmin ∧ s'.wmax = s.wmax :=
+  AHeap.deleteMin_refines s I hne
+
+example : Inv ex3 ∧ PQ.len (abs ex3) ≠ 0 := ⟨ex3_inv, by decide⟩
+
+/-- `flush` -/
+theorem flush_refines (s : Heap) (I : Inv s) :
+    Inv (flush s) ∧ abs (flush s) = PQ.flush (abs s) ∧ (flush s).wmin = s.wmin ∧ (flush s).wmax = s.wmax :=
+  AHeap.flush_refines s I
+
+/-- `clear` (no hypothesis needed: it even repairs a broken state) -/
+theorem clear_refines (s : Heap) :
+    Inv (clear s) ∧ abs (clear s) = PQ.clear (abs s) ∧ (clear s).wmin = s.wmin ∧ (clear s).wmax = s.wmax :=
+  AHeap.clear_refines s
+
+/-- one statement for all operations: every in-domain step of the model is a step of the
+reference queue, and the invariant is kept -/
+theorem refines_step (s : Heap) (I : Inv s) (op : Op) (hpre : Pre s.wmin s.wmax (abs s) op) :
+    ∃ s' r, step s op = some (s', r) ∧ Inv s' ∧ SpecStep (abs s) op r (abs s') ∧
+      s'.wmin = s.wmin ∧ s'.wmax = s.wmax :=
+  AHeap.refines_step s I op hpre
+
+example : Inv ex3 ∧ Pre ex3.wmin ex3.wmax (abs ex3) .del := ⟨ex3_inv, by decide⟩
+
+/-! ### observers -/
+
+/-- every observer of the model equals the reference queue's observer on `abs s` -/
+theorem observers_refine (s : Heap) (I : Inv s) :
+    len s = PQ.len (abs s) ∧ isEmpty s = (PQ.len (abs s) == 0) ∧
+    insertedLen s = PQ.insertedLen (abs s) ∧
+    ∀ id, weight s id = PQ.weight (abs s) s.wmax id ∧ contains s id = PQ.contains (abs s) id ∧
+      removed s id = PQ.removed (abs s) id ∧ inserted s id = PQ.inserted (abs s) id ∧
+      data? s id = PQ.data? (abs s) id :=
+  ⟨len_eq s I, isEmpty_eq s I, insertedLen_eq s, fun id =>
+    ⟨weight_eq s I id, contains_eq s I id, removed_eq s I id, inserted_eq s I id, data_eq s I id⟩⟩
+
+/-- non-vacuity of the observer theorems (their only hypothesis is `Inv s`), with a live and a
+removed id: `ex3` after one `delete_min` -/
+example : ∃ s id, deleteMin ex3 = some (s, id) ∧ Inv s ∧ contains s 2 = true ∧ removed s 1 = true := by
+  obtain ⟨s', id, a, b, _⟩ := AHeap.deleteMin_refines ex3 ex3_inv (by decide)
+  refine ⟨s', id, a, b, ?_⟩
+  have : deleteMin ex3 = some ((deleteMin ex3).get (by decide)) := by simp
+  rw [this] at a
+  cases a
+  exact ⟨by decide, by decide⟩
+
+theorem len_eq (s : Heap) (I : Inv s) : len s = PQ.len (abs s) := AHeap.len_eq s I
+theorem isEmpty_eq (s : Heap) (I : Inv s) : isEmpty s = (PQ.len (abs s) == 0) := AHeap.isEmpty_eq s I
+theorem insertedLen_eq (s : Heap) : insertedLen s = PQ.insertedLen (abs s) := AHeap.insertedLen_eq s
+theorem weight_eq (s : Heap) (I : Inv s) (id : Int) : weight s id = PQ.weight (abs s) s.wmax id :=
+  AHeap.weight_eq s I id
+theorem contains_eq (s : Heap) (I : Inv s) (id : Int) : contains s id = PQ.contains (abs s) id :=
+  AHeap.contains_eq s I id
+theorem removed_eq (s : Heap) (I : Inv s) (id : Int) : removed s id = PQ.removed (abs s) id :=
+  AHeap.removed_eq s I id
+theorem inserted_eq (s : Heap) (I : Inv s) (id : Int) : inserted s id = PQ.inserted (abs s) id :=
+  AHeap.inserted_eq s I id
+theorem data_eq (s : Heap) (I : Inv s) (id : Int) : data? s id = PQ.data? (abs s) id :=
+  AHeap.data_eq s I id
+
+/-- lookups in the reference queue go through the id map (so the ids in `abs s` are distinct) -/
+theorem find_abs (s : Heap) (I : Inv s) (id : Int) :
+    PQ.find? (abs s) id = (lookup s.idx id).map (fun i => ent (gt s.nodes i)) :=
+  AHeap.find_abs s I.idmap id
+
+/-- `min()` is a contained id whose weight is minimal among the contained ids -/
+theorem min_is_minimum (s : Heap) (I : Inv s) (id : Int) (h : min? s = some id) : PQ.IsMin (abs s) id :=
+  AHeap.min_is_minimum s I id h
+
+/-- non-vacuity: after the D2 witness history the minimum is the decreased id -/
+example : ∃ s, decreaseKey ex3 3 5 = some s ∧ min? s = some 3 := ⟨_, rfl, by decide⟩
+example : Inv ex3 ∧ min? ex3 = some 1 := ⟨ex3_inv, by decide⟩
+
+/-- `min()` is undefined (the Rust panics) exactly on the empty queue -/
+theorem min_none_iff (s : Heap) (I : Inv s) : min? s = none ↔ PQ.len (abs s) = 0 :=
+  AHeap.min_none_iff s I
+
+/-! ### flush / clear -/
+
+/-- after `flush` the heap is empty, no id is contained, every id inserted before reports removed
+(and still inserted, with its weight) -/
+theorem flush_post (s : Heap) (I : Inv s) :
+    len (flush s) = 0 ∧
+    ∀ id, contains (flush s) id = false ∧ (inserted s id = true → removed (flush s) id = true) ∧
+      inserted (flush s) id = inserted s id ∧ weight (flush s) id = weight s id :=
+  AHeap.flush_post s I
+
+/-- non-vacuity (the D4 witness): two contained ids, both removed after flush -/
+example : Inv ex3 ∧ contains ex3 3 = true ∧ removed (flush ex3) 3 = true ∧ contains (flush ex3) 3 = false :=
+  ⟨ex3_inv, by decide, by decide, by decide⟩
 
 /-- after `clear` the heap is empty, nothing is inserted/contained/removed, and it equals a fresh heap -/
 theorem clear_post (s : Heap) :
@@ -21,6 +228,54 @@ theorem clear_post (s : Heap) :
   refine ⟨rfl, rfl, rfl, ?_⟩
   intro id
   simp [clear, init, contains, removed, inserted, weight, lookup]
+
+/-! ### all histories -/
+
+/-- from any state satisfying the invariant, every in-domain history (of any length) runs to the
+end without reaching a panic branch, ends in a state satisfying the invariant, and the sequence of
+results is a behaviour of the reference queue that ends in the abstraction of the final state -/
+theorem reachable_from (ops : List Op) (s : Heap) (I : Inv s) (V : ValidFrom s ops) :
+    ∃ s' rs, run s ops = some (s', rs) ∧ Inv s' ∧ SpecRun (abs s) ops rs (abs s') ∧
+      s'.wmin = s.wmin ∧ s'.wmax = s.wmax :=
+  AHeap.reachable_from ops s I V
+
+/-- every state reachable from `new()` by an in-domain history satisfies the invariant -/
+theorem reachable_inv (wmin wmax : Int) (ops : List Op) (V : ValidFrom (init wmin wmax) ops) :
+    ∃ s' rs, run (init wmin wmax) ops = some (s', rs) ∧ Inv s' := by
+  obtain ⟨s', rs, a, b, _⟩ := AHeap.reachable_from ops _ (init_inv wmin wmax) V
+  exact ⟨s', rs, a, b⟩
+
+/-- … and all its observers are those of a reference queue reached by the same history -/
+theorem reachable_refines (wmin wmax : Int) (ops : List Op) (V : ValidFrom (init wmin wmax) ops) :
+    ∃ s' rs q, run (init wmin wmax) ops = some (s', rs) ∧ SpecRun [] ops rs q ∧ abs s' = q ∧
+      len s' = PQ.len q ∧ isEmpty s' = (PQ.len q == 0) ∧ insertedLen s' = PQ.insertedLen q ∧
+      (∀ id, weight s' id = PQ.weight q wmax id ∧ contains s' id = PQ.contains q id ∧
+        removed s' id = PQ.removed q id ∧ inserted s' id = PQ.inserted q id ∧
+        data? s' id = PQ.data? q id) ∧
+      (∀ id, min? s' = some id → PQ.IsMin q id) ∧ (min? s' = none ↔ PQ.len q = 0) := by
+  obtain ⟨s', rs, a, I, b, _, M⟩ := AHeap.reachable_from ops _ (init_inv wmin wmax) V
+  rw [init_abs] at b
+  have hM : s'.wmax = wmax := M
+  obtain ⟨o1, o2, o3, o4⟩ := observers_refine s' I
+  refine ⟨s', rs, abs s', a, b, rfl, o1, o2, o3, ?_, fun id h => AHeap.min_is_minimum s' I id h,
+    AHeap.min_none_iff s' I⟩
+  intro id
+  rw [← hM]; exact o4 id
+
+/-- non-vacuity of the history theorems: a concrete 14-step history is in-domain -/
+example : ValidFrom (init (-100) 100) exOps := exOps_valid
+
+/-- a history that is valid on the reference alone (whatever minima are removed) is in-domain -/
+theorem valid_validFrom (ops : List Op) (s : Heap) (I : Inv s) (V : Valid s.wmin s.wmax (abs s) ops) :
+    ValidFrom s ops :=
+  AHeap.valid_validFrom ops s I V
+
+example : Inv (init 0 9) ∧ Valid (init 0 9).wmin (init 0 9).wmax (abs (init 0 9)) [.ins 1 3 0, .flush] := by
+  refine ⟨init_inv 0 9, by decide, ?_⟩
+  rintro r q' ⟨rfl, rfl⟩
+  exact ⟨trivial, fun _ _ _ => trivial⟩
+
+/-! ### sift-up order (kept from the first slice) -/
 
 /-- sift-up establishes heap order (with `w` imagined in the final hole) from heap order with a hole -/
 theorem upLoop_keeps_order (fuel : Nat) (h : Array Elem) (ns : Array Node) (key : Nat) (w : Int)
@@ -40,5 +295,36 @@ example : OrdW #[⟨0, -5⟩, ⟨0, 1⟩, ⟨1, 4⟩, ⟨2, 7⟩] 3 0 ∧ (2 ≤
     subst this; simp [wt, gt]
   · intro _ k h2 hk he
     simp at hk; omega
+
+/-- sift-down: the symmetric statement for `downLoop` (order except on the edges from the hole to
+its children is kept, and on exit the hole's children dominate `w`) -/
+theorem downLoop_keeps_order (fuel : Nat) (h : Array Elem) (ns : Array Node) (key : Nat) (w : Int)
+    (r x : Nat) (lo : Int) (hf : h.size - key ≤ fuel) (ho : OrdD h key w) (hb : 2 ≤ key → Below h key)
+    (P : PInv h ns key r x lo) :
+    OrdD (downLoop fuel h ns key w).1 (downLoop fuel h ns key w).2.2 w ∧
+    (∀ k, 2 ≤ k → k < h.size → k / 2 = (downLoop fuel h ns key w).2.2 →
+        w ≤ (gt (downLoop fuel h ns key w).1 k).weight) :=
+  let r := downLoop_spec fuel h ns key w r x lo hf ho hb P
+  ⟨r.2.1, r.2.2.1⟩
+
+/-- non-vacuity: the root of the three-element heap `ex3` taken out as the hole, weight 50 imagined -/
+example : ex3.heap.size - 1 ≤ ex3.heap.size ∧ OrdD ex3.heap 1 50 ∧ (2 ≤ 1 → Below ex3.heap 1) ∧
+    PInv ex3.heap ex3.nodes 1 (gt ex3.heap 1).index ex3.nodes.size ex3.wmin := by
+  have hs : ex3.heap.size = 4 := by decide
+  refine ⟨by omega, ?_, by omega, PInv.start ex3_inv.ptr 1 (by omega) (by omega) ex3_inv.wlo⟩
+  intro k k1 k2 k3
+  omega
+
+/-- the fuel the model hands to the two sift loops (`key` resp. `heap.len()`) is sufficient: extra
+fuel never changes the result, so the fuelled loops are the Rust `while` loops -/
+theorem fuel_sufficient (h : Array Elem) (ns : Array Node) (key : Nat) (w : Int) :
+    (∀ fuel, key ≤ fuel → (gt h 0).weight ≤ w →
+      upLoop (fuel + 1) h ns key w = upLoop fuel h ns key w) ∧
+    (∀ fuel, 1 ≤ key → h.size - key ≤ fuel →
+      downLoop (fuel + 1) h ns key w = downLoop fuel h ns key w) :=
+  ⟨fun fuel a b => upLoop_fuel fuel h ns key w a b, fun fuel a b => downLoop_fuel fuel h ns key w a b⟩
+
+example : (3 : Nat) ≤ 3 ∧ (gt ex3.heap 0).weight ≤ 5 ∧ (1 : Nat) ≤ 1 ∧ ex3.heap.size - 1 ≤ ex3.heap.size := by
+  decide
 
 end Tbx.Props.C10
